@@ -68,7 +68,9 @@ mod imp {
                     format!(r#"@filter(op: "{op}", value: ["{arg}"])"#)
                 }
                 _ => {
-                    let op = match ty { Ty::Int => *self.rng.pick(&INT_OPS), Ty::Str => *self.rng.pick(&STR_OPS), Ty::StrList => *self.rng.pick(&["=", "!="]) };
+                    let mut op = match ty { Ty::Int => *self.rng.pick(&INT_OPS), Ty::Str => *self.rng.pick(&STR_OPS), Ty::StrList => *self.rng.pick(&["=", "!="]) };
+                    // ill-typed on purpose: any operator on any property type
+                    if self.sloppy && self.rng.chance(40) { op = *self.rng.pick(&["<", ">=", "has_prefix", "not_has_suffix", "has_substring", "not_has_substring", "regex", "not_regex", "contains", "not_contains", "one_of", "not_one_of"]); }
                     let arg = if !usable.is_empty() && self.rng.chance(50) { format!("%{}", self.rng.pick(&usable).0) } else { let v = self.value_of(ty_for_arg); self.variable(v) };
                     format!(r#"@filter(op: "{op}", value: ["{arg}"])"#)
                 }
@@ -127,7 +129,8 @@ mod imp {
         for _ in 0..count {
             let sloppy = rng.chance(sloppy_percent);
             let depth = 1 + rng.below(3) as usize;
-            let (lo, hi) = (rng.below(4) as i64, 4 + rng.below(6) as i64);
+            // mostly small numbers; sometimes the range where the data source has null names and null vowel lists (above 20)
+            let (lo, hi) = if rng.chance(20) { let lo = 17 + rng.below(5) as i64; (lo, lo + rng.below(5) as i64) } else { (rng.below(4) as i64, 4 + rng.below(6) as i64) };
             let mut g = Gen { rng: &mut rng, next_id: 0, args: BTreeMap::new(), sloppy };
             let mut tags = Vec::new();
             let coerce = g.rng.chance(20);
